@@ -189,9 +189,9 @@ theorem wfState_inv {d : Nat} {kvs : List (Str × Json)} {state : Json}
   simp only [h7, if_false] at h
   by_cases h8 : stateType state = S "Map"
   · simp only [h8, if_true, Bool.and_eq_true] at h
-    refine ⟨hc, hh, by simp [h8, knownTypes], fun _ _ _ => h.1, by simp [h8, e], by simp [h8, e], fun _ => ?_,
+    refine ⟨hc, hh, by simp [h8, knownTypes], fun _ _ _ => h.1.1, by simp [h8, e], by simp [h8, e], fun _ => ?_,
       by simp [h8, e], by simp [h8, e]⟩
-    have := h.2
+    have := h.1.2
     simpa [wfBranch, wfScope] using this
   simp [h8] at h
 
